@@ -26,6 +26,7 @@ type Proto struct {
 	Redacts  string
 	TS       int64
 	Signer   int // index into Keys
+	PreSig   string // a signatures object the proto-event already carries (an invite another server has signed), "" = none
 }
 
 var Keys = []evgen.Key{evgen.NewKey("a.org", "ed25519:1", 1), evgen.NewKey("b.org", "ed25519:k2", 2)}
@@ -103,6 +104,12 @@ func Protos(version string, full bool) []Proto {
 							sender := "@u:" + Keys[s].Server
 							p := Proto{Type: t.Type, StateKey: t.StateKey, Sender: sender, Content: c, Prev: ids(version, l[0]), Auth: ids(version, l[1]), Depth: d, Unsigned: u, Redacts: t.Redacts, TS: 1_700_000_000_000, Signer: s}
 							out = append(out, p)
+							// a proto-event that arrives with another server's signature (the invite flow builds from one)
+							if full && d == 1 && u == "" && s == 0 && l[0] <= 2 && l[1] <= 2 {
+								q := p
+								q.PreSig = PreSig
+								out = append(out, q)
+							}
 							// room version 12: auth lists that name the create event themselves, not in first place
 							if full && refversions.Get(version).DomainlessRoomIDs && d == 1 && u == "" && s == 0 && l[1] >= 1 && l[1] <= 2 && t.Type != "m.room.create" {
 								create := "$" + RoomID(version)[1:]
@@ -124,6 +131,9 @@ func Protos(version string, full bool) []Proto {
 	return out
 }
 
+// PreSig is a signatures object as another server would have put it on a proto-event (the signature itself is not checked by Build).
+const PreSig = `{"c.org":{"ed25519:x":"gTFNMzVXu0NwKLjqDBGBEo6WcCzIUcbzlFmi9J2aS3ZZCuTLGJVJiQm9cL8hJvq1Ek0p5JFJDiBlgGHO6qThCA"}}`
+
 // BuildReusing builds p and then q with ONE EventBuilder (fields reassigned in between), as callers that
 // keep a builder around do; it returns both events.
 func BuildReusing(version string, p, q Proto) (gmsl.PDU, gmsl.PDU, error) {
@@ -139,6 +149,10 @@ func BuildReusing(version string, p, q Proto) (gmsl.PDU, gmsl.PDU, error) {
 		eb.Unsigned = nil
 		if p.Unsigned != "" {
 			eb.Unsigned = spec.RawJSON(p.Unsigned)
+		}
+		eb.Signature = nil
+		if p.PreSig != "" {
+			eb.Signature = spec.RawJSON(p.PreSig)
 		}
 	}
 	set(p)
@@ -163,6 +177,9 @@ func Build(version string, p Proto) (gmsl.PDU, error) {
 	pe := &gmsl.ProtoEvent{SenderID: p.Sender, RoomID: room, Type: p.Type, StateKey: p.StateKey, PrevEvents: p.Prev, AuthEvents: p.Auth, Redacts: p.Redacts, Depth: p.Depth, Content: spec.RawJSON(p.Content)}
 	if p.Unsigned != "" {
 		pe.Unsigned = spec.RawJSON(p.Unsigned)
+	}
+	if p.PreSig != "" {
+		pe.Signature = spec.RawJSON(p.PreSig)
 	}
 	eb := ver.NewEventBuilderFromProtoEvent(pe)
 	k := Keys[p.Signer]
